@@ -873,6 +873,7 @@ theorem step_ext (s : State) (op : Op) : s.h.Ext (step s op).1.h := by
   | ctxq e p =>
     simp only [step]
     cases findEntry s e <;> exact Heap.Ext.refl _
+  | clock t => exact Heap.Ext.refl _
 
 theorem runOps_ext (ops : List Op) (s : State) : s.h.Ext (runOps s ops).h := by
   induction ops generalizing s with
@@ -1174,6 +1175,7 @@ theorem step_quiet (s : State) (op : Op) (hq : s.h.Quiet) (hop : op.blockPanicFr
   | ctxq e p =>
     simp only [step]
     cases findEntry s e <;> exact hq
+  | clock t => exact hq
 
 theorem stepExit_log (s : State) (e : String) (r : EntryRec) (ch : ChainDef) (l : List Call) (hq : s.h.Quiet)
     (hr : findEntry s e = some r) (hnb : r.blockAt = none) (hne : r.exited = false)
@@ -1436,6 +1438,7 @@ theorem step_agree (s : State) (s' : SState) (op : Op) (h : ChainsAgree s s') :
       cases s'.findEntry e with
       | none => rfl
       | some r => dsimp only; split_ifs <;> rfl
+  | clock t => exact h
 
 def srunOps (s : SState) (ops : List Op) : SState := ops.foldl (fun s o => (sstep s o).1) s
 
@@ -1619,6 +1622,7 @@ theorem step_blockedAt (s : State) (op : Op) (e : String) (a : Nat) (h : blocked
   | ctxq e' p =>
     simp only [step]
     cases findEntry s e' <;> exact ⟨x, hx, hxa⟩
+  | clock t => exact ⟨x, hx, hxa⟩
 
 theorem runOps_blockedAt (ops : List Op) (s : State) (e : String) (a : Nat) (h : blockedAt s e a) :
     blockedAt (runOps s ops) e a := by
@@ -1881,6 +1885,7 @@ theorem step_names_model (s : State) (op : Op) (hop : ∀ e n, op ≠ .entry e n
     | some r => dsimp only; cases r.blockAt <;> rfl
   | globalorder => rfl
   | ctxq e p => simp only [step]; cases findEntry s e <;> rfl
+  | clock t => rfl
 
 theorem step_names_spec (s : SState) (op : Op) (hop : ∀ e n, op ≠ .entry e n) :
     (sstep s op).1.entries.map (·.name) = s.entries.map (·.name) := by
@@ -1924,6 +1929,7 @@ theorem step_names_spec (s : SState) (op : Op) (hop : ∀ e n, op ≠ .entry e n
     cases s.findEntry e with
     | none => rfl
     | some r => dsimp only; split_ifs <;> rfl
+  | clock t => rfl
 
 theorem step_names (s : State) (s' : SState) (op : Op) (hc : ChainsAgree s s') (hn : NamesAgree s s') :
     NamesAgree (step s op).1 (sstep s' op).1 := by
